@@ -124,6 +124,7 @@ func init() {
 		// 6. TCP fallback
 		fb := c.MustFunc("Memberlist.sendPingAndWaitForAck")
 		xf := c.flow(fb, map[string]string{})
+		checkFallbackDeadline(c, "C19")
 		for _, ex := range xf.Exits {
 			if len(ex.Ret) == 2 && ex.Ret[0] == "true" {
 				typ, seq := false, false
@@ -571,4 +572,46 @@ func nonNegName(s string, cube map[string]string, depth int) bool {
 		return true
 	}
 	return false
+}
+
+// checkFallbackDeadline: the TCP fallback ping is bounded by the probe's own
+// deadline: the connection's deadline is set from the deadline parameter, and
+// nothing the function calls afterwards re-arms a deadline on the connection
+// (a helper that sets its own, longer read deadline would let an ack that
+// arrives after the probe's deadline count as contact).
+func checkFallbackDeadline(c *Ctx, prop string) {
+	fb := c.MustFunc("Memberlist.sendPingAndWaitForAck")
+	xf := c.flow(fb, map[string]string{})
+	rule := "TCP fallback: the exchange runs under the probe's own deadline - the connection deadline is the deadline parameter, and no function called after arming it sets another deadline"
+	c.Rule(rule)
+	nd := 0
+	for _, e := range xf.Effects {
+		switch {
+		case strings.HasPrefix(e.Class, "DEADLINE:"):
+			nd++
+			c.Check(prop+"/tcp-fallback/deadline-is-probe-deadline", rule, e.Pos, e.Detail["arg0"] == "deadline", "connection deadline set to "+untok(e.Detail["arg0"])+", not the probe deadline")
+		case strings.HasPrefix(e.Class, "CALL:"):
+			armed := false
+			for k, v := range e.Seen {
+				if strings.HasPrefix(k, "DEADLINE:") && v > 0 {
+					armed = true
+				}
+			}
+			if !armed {
+				continue
+			}
+			callee := c.P.Func(strings.TrimPrefix(e.Class, "CALL:"))
+			if callee == nil {
+				continue
+			}
+			bad := ""
+			for k := range c.G.Summary(callee) {
+				if strings.HasPrefix(k, "DEADLINE:") {
+					bad = k
+				}
+			}
+			c.Check(prop+"/tcp-fallback/deadline-not-overridden/"+callee.Name, rule, e.Pos, bad == "", callee.Name+" (called after the probe deadline was armed) sets its own deadline ("+strings.TrimPrefix(bad, "DEADLINE:")+"): the ack may be accepted after the probe's deadline")
+		}
+	}
+	c.Floor("deadline arming in the TCP fallback", nd, 1)
 }
